@@ -3,7 +3,7 @@
    the ocaml/gen directory by tools/build_model.sh so that model.ml lands there. *)
 From Coq Require Import Extraction ExtrOcamlBasic ExtrOcamlString.
 From QSX Require Import Base.QSum LP.ILP LP.Cert LP.User LP.OptTest LP.Driver.
-From QSX Require Import LP.Transform.
+From QSX Require Import LP.Transform Float.Conv.
 (* one Require line per area may be added below *)
 
 Extraction Language OCaml.
@@ -14,5 +14,6 @@ Extraction "model.ml"
   opt_test infeas_test wf_logicals
   exact_solver_gen exact_solver
   neg_obj scale_row_lp dup_row add_redundant split_eq perm_rows is_perm subst_vars perm_cols
+  to_double ulp
   (* add names below, one line per area *)
   .
